@@ -550,10 +550,12 @@ def r02_7(ctx: Ctx):
         for cs in ctx.res.callsites(f):
             if not (cs.external and isinstance(cs.node, ast.Call)) or cs.external.startswith(("builtins.", "numpy.")):
                 continue
-            for k in cs.node.keywords:
-                if k.arg not in ("callback", "callbacks"):
+            from ..core import effective_keywords
+
+            for karg, kval in effective_keywords(cs.node, local_defs(f)).items():
+                if karg not in ("callback", "callbacks"):
                     continue
-                t = ctx.res.type_of(k.value, f)
+                t = ctx.res.type_of(kval, f)
                 for x in ([] if t is None else ([t] if t[0] != "union" else list(t[1]))):
                     if x[0] not in ("bound", "func"):
                         continue
